@@ -270,7 +270,13 @@ impl Router {
                 }
             }),
             default => {
-                panic!("unhandled request: {}", default)
+                let message = format!("unhandled request: {}", default);
+                self.respond(Response::new_err(
+                    request.id.clone(),
+                    ErrorCode::MethodNotFound as i32,
+                    message,
+                ));
+                return false;
             }
         };
 
